@@ -219,6 +219,14 @@ def _write_cog(
     return path
 
 
+def _yx_order(xx: xr.DataArray) -> xr.DataArray:
+    """Writer below takes rows then columns: ``(x, y)`` ordered input has to be transposed."""
+    sdims = xx.odc.spatial_dims
+    if sdims is None or xx.odc.xdim == xx.odc.ydim + 1:
+        return xx
+    return xx.transpose(..., *sdims)
+
+
 def write_cog(
     geo_im: xr.DataArray,
     fname: Union[str, Path],
@@ -282,6 +290,7 @@ def write_cog(
         assert result is not None
         return result
 
+    geo_im = _yx_order(geo_im)
     pix = geo_im.data
     geobox = geo_im.odc.geobox
     nodata = extra_rio_opts.pop("nodata", None)
@@ -429,7 +438,7 @@ def write_cog_layers(
         temp_fname = mm[0].name
 
         # write each layer into mem image
-        for img, m in zip(xx, mm):
+        for img, m in zip(map(_yx_order, xx), mm):
             _write_cog(
                 img.data,
                 img.odc.geobox,
